@@ -133,7 +133,12 @@ class C20(PropBase):
             "x --log-file x --verbose x stdout class (pipe / /dev/full / closed pipe / reader leaving after N bytes) x RLIMIT_FSIZE "
             "x --symbols-url on a loopback server (200/404/garbage; cache/tmp usable or not) x --use-local-debuginfo; file sink "
             "classes: writable, missing directory, /dev/full, a directory, read-only (tool run as uid 65534), FIFO whose reader "
-            "leaves after N bytes. Each case = one run of the built "
+            "leaves after N bytes; the state of each sink path BEFORE the run: absent, empty, shorter, longer, exactly as long as "
+            "the report, a symlink to a longer file, a dangling symlink, a symlink loop, or written by previous runs of the tool with "
+            "other option sets (json then human, dump then brief dump, pretty then compact cyborg, trace log then error log); symbol "
+            "sources M<items>: 2-4 symbol roots that describe the same module differently (plus empty / missing roots and a .sym file) "
+            "in every order, duplicated, as positionals / --symbols-path values in front of and behind the minidump / mixed, several "
+            "--symbols-url values in both orders, URLs with paths, default cache directory; --evil-json. Each case = one run of the built "
             "minidump-stackwalk binary plus the library in-process on the same bytes and options. quick: full option matrix on "
             "test.dmp, reduced matrix on every other input, io-error and conflict families, mutated dumps, the io-fault matrix "
             "(12 accepted option sets x every sink x every fault x 3 report sizes), symbol server, local debuginfo, "
@@ -146,6 +151,9 @@ class C20(PropBase):
         "extraction ExtrOcamlBasic only; ocaml/c20/main.ml; harness/src/bin/c20.rs (spawns the binary, calls the public printers; "
         "its print_minidump_dump is a copy of main.rs's call sequence)",
         "clap 4.5 (parsing, --help/--version, usage errors), std::process::exit, tokio main, tracing-subscriber: exercised, not modelled",
+        "translate/c20_wiring.py (regexes over main_result: the three File::create sites and the absence of any other file API, every "
+        "occurrence of symbols_paths / symbols_cache / symbols_tmp / timeout / cli.symbols_url / options); std's documentation that "
+        "File::create = write + create + truncate; Sinks.v's write-at-cursor semantics of a regular file",
     ]
     assumptions = [
         "partial: what the printers write, clap's tokenisation, process exit, the panic hook, colouring and the interactive "
@@ -154,6 +162,10 @@ class C20(PropBase):
         "for status, presence and --output-file = stdout only (exact equality on every other CPU, where the flag is a no-op)",
         "--symbols-url is exercised against the harness's loopback server only; log-file writes are not modelled",
         "the environment of the model is abstract: results of File::create, read_path, processing and of each printer call",
+        "the file-system theorems speak about regular files whose three paths are pairwise distinct and that nobody else writes during "
+        "the run; what the logger writes into the --log-file is not modelled (compared with the log of the same command on a fresh path)",
+        "the manual does not say whether a --symbols-path value given behind a positional symbol path is searched first: the oracle "
+        "accepts both orders there, the model pins the code's (all --symbols-path values, then all positionals)",
     ]
     manifest = {
         "text": "partial: the decision logic of main() is modelled and proved, the real binary is exercised. Theorems (Coq, every "
@@ -169,14 +181,24 @@ class C20(PropBase):
                 "(c20_failure_no_partial_report_partial), bytes on the primary output of a failing run arise only from an io error "
                 "after report bytes were streamed (c20_dirty_primary_only_midreport; the unconditional claim is refuted with two "
                 "witnesses, c20_failure_no_partial_report_refuted = known finding F-C20d); the call sequence of --dump is regenerated "
-                "from main.rs, pinned (c20_dump_sequence_pinned) and compared textually with the harness's copy. The built minidump-stackwalk binary is run over the option matrix x inputs "
+                "from main.rs, pinned (c20_dump_sequence_pinned) and compared textually with the harness's copy; the file sinks as a state "
+                "machine over the file system the run FOUND (open = create-or-truncate, write at the cursor): after a successful run the "
+                "output file is exactly the primary report and the --cyborg file exactly the JSON rendering whatever the paths held "
+                "before (c20_output_file_is_report_whatever_before, c20_cyborg_file_is_json_whatever_before, "
+                "c20_sink_content_independent_of_prestate; a path that is not opened keeps its content, c20_unopened_path_untouched; "
+                "without the truncation the old tail survives, c20_truncate_needed), all three sinks are opened by File::create "
+                "(c20_every_sink_truncates, c20_wiring_pinned: regenerated from main.rs); argv -> symbol supplier: every --symbols-path "
+                "value then every positional path, each in command-line order, the URLs in command-line order, nothing dropped or "
+                "reordered, first path that has the module wins, HTTP supplier iff a URL is given, cache/tmp/timeout and their defaults "
+                "(c20_symbol_paths_in_given_order, c20_same_style_order_preserved, c20_first_given_path_wins, c20_supplier_kind). The built minidump-stackwalk binary is run over the option matrix x inputs "
                 "(testdata, synthesized, mutated, truncated, missing, empty, directory) and compared byte for byte with the "
                 "library called in-process (print / print_brief / print_json / the dump printers) and with the model's "
                 "prediction; an independent oracle re-checks the property on exit status, stdout, stderr and the files.",
         "note": "partial: clap's parsing, process exit, the panic hook, terminal colouring and the progress display are runtime "
                 "behaviour — exercised on the real binary, not proved. Trusted: Coq kernel; hand-written model of main.rs "
                 "(correspondence-checked); extraction + OCaml/Rust glue; translate/c20_dump_sequence.py (regexes tying the harness's copy of "
-                "print_minidump_dump to main.rs). --use-local-debuginfo on x86-64/arm64 dumps is checked for status and presence only. No axioms.",
+                "print_minidump_dump to main.rs), translate/c20_wiring.py (regexes pinning the File::create sites, the flow of the symbol "
+                "path / URL / cache arguments and the options overrides; aborts on an OpenOptions, a sort, a new override). --use-local-debuginfo on x86-64/arm64 dumps is checked for status and presence only. No axioms.",
     }
 
     # ------------------------------------------------------------------ the tool binary
@@ -381,9 +403,9 @@ class C20(PropBase):
             for _ in range(1500):
                 inp = rng.choice(inputs + ["F:test.dmp"] * 6)
                 modes = rng.choice(MODES + ["hj"])
-                add("logging_and_extras", mk(inp, rng.choice(["n", "p", "s", "a", "b", "U2", "U4", "Ug", "U2c"]), modes, rng.below(2), rng.below(2),
-                                             rng.choice([0, 1, 2, 9]), rng.below(2), rng.choice(["-", "g", "g", "b", "d", "r", "u", "f500"]),
-                                             rng.choice(["g", "g", "b", "d", "u"]), rng.choice(["-", "g", "g", "b", "r"]),
+                add("logging_and_extras", mk(inp, rng.choice(["n", "p", "s", "a", "b", "U2", "U4", "Ug", "U2c", "M.za", "MZ.a", "M.mZa", "M8.z"]), modes, rng.below(2), rng.below(2),
+                                             rng.choice([0, 1, 2, 9]), rng.below(2), rng.choice(["-", "g", "g", "b", "d", "r", "u", "f500", "xl", "xs", "xk", "qj", "qD"]),
+                                             rng.choice(["g", "g", "b", "d", "u", "xl", "qC"]), rng.choice(["-", "g", "g", "b", "r", "xl"]),
                                              rng.choice(["e", "off", "error", "warn", "info", "debug", "trace"]),
                                              rng.choice(["o", "o", "o", "u", "p"]), 1 if rng.chance(1, 6) else 0, rng.below(4),
                                              rng.choice([0, 0, 0, 64, 3000]), rng.below(2)))
